@@ -183,6 +183,9 @@ func checkComponents(run *core.Run, v fam.View, ver string, exp fam.TypeExpect) 
 			if t := typeOf(spec.M(g)); t != es.Base {
 				rep("alias-maps-to-underlying", fmt.Sprintf("%s has type %q, its underlying primitive maps to %q", name, t, es.Base))
 			}
+			if en := spec.L(spec.M(g)["enum"]); len(en) > 0 {
+				rep("alias-maps-to-underlying", fmt.Sprintf("%s is an alias without constants of its own, yet it lists enum values %s", name, spec.Canon(spec.M(g)["enum"])), "alias-lists-foreign-constants", "true")
+			}
 		}
 	}
 	if _, ok := v.Docs[ver].Schemas()["Rfc7807Error"]; !ok {
@@ -290,7 +293,7 @@ func Main(tier, replay string) {
 	run.Set("pack_bisections", rn.Bisects.Load())
 	run.Sample(f.Cases[0])
 	run.Sample(f.Cases[len(f.Cases)-1])
-	run.Bound = fmt.Sprintf("%d type scenarios: every compilable labelled digraph on 2 structs over edge kinds {none,T,*T,[]T,map[string]T,embed} x root usages; 24 leaf kinds x 10 tag variants; %d metamorphic pairs; 1 cross-package graph; 11 container/pointer/embedding composites x 2 usages; both OpenAPI versions", len(f.Cases), len(pairs))
+	run.Bound = fmt.Sprintf("%d type scenarios: every compilable labelled digraph on 2 structs over edge kinds {none,T,*T,[]T,map[string]T,embed} x root usages; 26 leaf kinds x 10 tag variants; %d metamorphic pairs; 1 cross-package graph; field-doc ownership; 11 container/pointer/embedding composites x 2 usages; both OpenAPI versions", len(f.Cases), len(pairs))
 	run.Rule = "state = one set of type declarations plus the routes using them; transition = one run of the real pipeline + spec generators over a generated project; validated = per-version comparisons of components.schemas with the type-graph model, plus pairwise comparisons of shared components across metamorphic variants"
 	run.Assumptions = []string{"formats and nullability are not judged", "a component for the type of a field that is not JSON-visible is neither demanded nor forbidden", "an alias-typed field may be documented by reference or by its underlying primitive"}
 	os.RemoveAll(scratch)
